@@ -1129,12 +1129,18 @@ fn isolate_column(c: &FileCase, ci: usize) -> FileCase {
         .iter()
         .map(|b| RecordBatch::try_new(schema.clone(), vec![b.column(ci).clone()]).expect("isolated batch"))
         .collect();
+    // the writer gives every top-level column `data_cache_bytes / number of columns`: keep the share
+    let per_column = c.data_cache_bytes.map(|b| b / c.schema.fields().len() as u64);
+    let mut options_desc = c.options_desc.clone();
+    if let Some(b) = per_column {
+        options_desc["data_cache_bytes"] = json!(b);
+    }
     FileCase {
         version: c.version,
         schema,
         batches,
-        options_desc: c.options_desc.clone(),
-        data_cache_bytes: c.data_cache_bytes,
+        options_desc,
+        data_cache_bytes: per_column,
         max_page_bytes: c.max_page_bytes,
         keep_original_array: c.keep_original_array,
     }
